@@ -45,6 +45,9 @@ var stackSilent = log.New(io.Discard, "", 0)
 
 var journal *os.File
 
+// the stack the running case talks to (for call's give-up path)
+var curStack *stack.Stack
+
 // note records the case that is about to run, so that a crash of the whole
 // binary (a panic in a goroutine the server spawned cannot be recovered)
 // still leaves the failing case behind.
@@ -125,6 +128,9 @@ func call(t *rapid.T, what string, f func(ctx context.Context)) {
 	case <-time.After(30 * time.Second):
 		gs := stack.GoroutinesWith("bazel-remote/v2/server.")
 		if len(gs) > 0 {
+			if curStack != nil {
+				curStack.Abandon() // the handler is still running in there
+			}
 			t.Fatalf("request did not return within 30s; server goroutines:\n%s\nrequest: %s", strings.Join(gs, "\n\n"), what)
 		}
 		fmt.Println("VERIF-INFRA: call did not return and no server goroutine is parked")
@@ -147,6 +153,7 @@ func TestC14Requests(t *testing.T) {
 		storage := rapid.SampledFrom([]string{"zstd", "uncompressed"}).Draw(t, "storage")
 		inv.SetBaseline()
 		s, err := stack.New(stack.Opts{Storage: storage})
+		curStack = s
 		if err != nil {
 			t.Fatal(err)
 		}
@@ -786,6 +793,7 @@ func TestC14Backend(t *testing.T) {
 			return time.Duration(int(hash[0])*int(hash[2])%maxDelay) * time.Microsecond
 		}
 		s, err := stack.New(stack.Opts{Proxy: px})
+		curStack = s
 		if err != nil {
 			t.Fatal(err)
 		}
